@@ -234,18 +234,25 @@ static int exec_op(int k, op_t *o, long *ret){
       { long d_ = (long)jc_n[o->a] - (long)o->b; U("U_JcPoke", 3, (long)k, JCID(o->a), d_); jcs[o->a].state = d_; break; }
     case OP_JCDEC: U("U_JcDecCall", 2, (long)k, JCID(o->a)); myth_join_counter_dec(&jcs[o->a]); U("U_JcDecRet", 2, (long)k, JCID(o->a)); break;
     case OP_JCWAIT: U("U_JcWaitCall", 2, (long)k, JCID(o->a)); myth_join_counter_wait(&jcs[o->a]); U("U_JcWaitRet", 3, (long)k, JCID(o->a), (long)jc_n[o->a]); break;
-    case OP_UCSIG: /* mailbox put (documented uncond protocol, as in tests/myth_uncond_signal.c) */
+    case OP_UCSIG: /* mailbox put (documented uncond protocol, as in tests/myth_uncond_signal.c, extended to several
+                      parties: word bits 1 = full, 2 = somebody waits on the variable, 4 = a signal is in progress;
+                      at most one waiter at a time, and nobody announces itself before the previous signal has returned) */
       { int u = o->a; for (;;){ long old = ucw[u];
-          if (old & 1){ if (__sync_bool_compare_and_swap(&ucw[u], old, old | 2)){ U("U_UcWaitCall", 2, (long)k, UCID(u)); myth_uncond_wait(&ucs[u]); U("U_UcWaitRet", 2, (long)k, UCID(u)); } }
-          else if (__sync_bool_compare_and_swap(&ucw[u], old, ((long)o->b << 2) | 1)){
-            if (old & 2){ U("U_UcSignalCall", 2, (long)k, UCID(u)); myth_uncond_signal(&ucs[u]); U("U_UcSignalRet", 2, (long)k, UCID(u)); }
+          if ((old & 4) || ((old & 1) && (old & 2))){ yield_(k, 2); }
+          else if (old & 1){ if (__sync_bool_compare_and_swap(&ucw[u], old, old | 2)){ U("U_UcWaitCall", 2, (long)k, UCID(u)); myth_uncond_wait(&ucs[u]); U("U_UcWaitRet", 2, (long)k, UCID(u)); } }
+          else if (__sync_bool_compare_and_swap(&ucw[u], old, ((long)o->b << 3) | 1 | ((old & 2) ? 4 : 0))){
+            if (old & 2){ U("U_UcSignalCall", 2, (long)k, UCID(u)); myth_uncond_signal(&ucs[u]); U("U_UcSignalRet", 2, (long)k, UCID(u));
+                          __sync_fetch_and_and(&ucw[u], ~4L); }
             produced[u]++; break; } }
         break; }
     case OP_UCWAIT: /* mailbox get */
       { int u = o->a; for (;;){ long old = ucw[u];
-          if (old & 1){ if (__sync_bool_compare_and_swap(&ucw[u], old, 0)){
-              if (old & 2){ U("U_UcSignalCall", 2, (long)k, UCID(u)); myth_uncond_signal(&ucs[u]); U("U_UcSignalRet", 2, (long)k, UCID(u)); }
+          if (old & 4){ yield_(k, 2); }
+          else if (old & 1){ if (__sync_bool_compare_and_swap(&ucw[u], old, (old & 2) ? 4 : 0)){
+              if (old & 2){ U("U_UcSignalCall", 2, (long)k, UCID(u)); myth_uncond_signal(&ucs[u]); U("U_UcSignalRet", 2, (long)k, UCID(u));
+                            __sync_fetch_and_and(&ucw[u], ~4L); }
               consumed[u]++; break; } }
+          else if (old & 2){ yield_(k, 2); }                  /* empty and somebody already waits: one waiter per rendezvous */
           else if (__sync_bool_compare_and_swap(&ucw[u], old, old | 2)){ U("U_UcWaitCall", 2, (long)k, UCID(u)); myth_uncond_wait(&ucs[u]); U("U_UcWaitRet", 2, (long)k, UCID(u)); } }
         break; }
     case OP_KCREATE: { int rc; myth_key_t kk = -1; /* a = slot, b = destructor id (0 none) */
